@@ -237,6 +237,7 @@ extern bool g_exitCalled;
 void memBudgetStart(size_t perAlloc, size_t total);
 void memBudgetStop();
 bool memBudgetExceeded();
+bool memBudgetInherent(); // a refused request came from a cost inherent to the kind of object (see core.cpp)
 size_t memBudgetPeak();
 
 } // namespace sk
